@@ -20,6 +20,14 @@
 // ...OrDefault getters of the handle are NOT (in the C facade they are documented-by-implementation
 // to ask the currently selected mock support, and do so on the unchanged tree): they are not issued
 // in that state (the enumerated table observes hasReturnValue there and only counts what it sees).
+//
+// NULL as the actual output pointer: a mocked C function hands its caller's out-argument through, and callers pass NULL for an output they
+// do not want. That is well-defined exactly when nothing is written through the pointer by the framework itself: the candidate expectations
+// declare the parameter as unmodified / returning 0 bytes (nothing is copied), or as a typed output (the USER's copier receives the NULL
+// destination and - like every copy function of the family here - ignores it), or do not declare it at all (failing verdict). A raw
+// expectation returning > 0 bytes would memcpy into NULL through either interface, so the NULL boundary is only generated when no
+// expectation of the scenario returns bytes under that parameter name. The parameter still counts as passed: verdict, text, returned
+// value and the bytes of all real buffers must agree (null_output_pointer_table, and a pass over the random scenarios).
 #include "verif.h"
 #include <cmath>
 #include <cfloat>
@@ -116,6 +124,8 @@ static_assert(sizeof(TA) == 8 && sizeof(TB) == 8, "object pool types are 8 bytes
 static bool g_viaC = false;                              // tallies below are taken in the C execution only
 static uint64_t g_cmp_tally[CM_N][2][2];                 // [mode][same address][judged equal]
 static uint64_t g_cpy_tally[CP_N][2];                    // [mode][dst == src]
+static uint64_t g_cpy_null_tally[CP_N];                  // [mode] destination is NULL (the caller did not want the output): nothing to do
+static uint64_t g_null_out_tally[2];                     // C execution: actual output parameters passed with a NULL pointer [typed]
 static bool obj_invalid(int ot, const void* p) { return ot == OT_B ? ((const TB*) p)->s[0] == 0 : ((const TA*) p)->v[0] < 0; }     // object #3 of either pool
 static int eq_generic(int ot, int mode, const void* a, const void* b) {
     bool st = memcmp(a, b, 8) == 0;
@@ -133,6 +143,7 @@ static int eq_generic(int ot, int mode, const void* a, const void* b) {
     return r;
 }
 static void cpy_generic(int mode, void* d, const void* s) {
+    if (!d) { if (g_viaC) g_cpy_null_tally[mode]++; return; }
     if (g_viaC) g_cpy_tally[mode][d == s]++;
     unsigned char* D = (unsigned char*) d; const unsigned char* S = (const unsigned char*) s;
     if (mode == CP_MEMCPY) { if (d != s) memcpy(d, s, 8); return; }
@@ -165,6 +176,7 @@ static CmpCpp g_cmp[2][CM_N]; static CpyCpp g_cpy[CP_N];
 
 enum { OUT_BUFS = 3, OUT_SIZE = 16 };
 static unsigned char g_out[OUT_BUFS][OUT_SIZE];
+static void* out_ptr(int buf) { return buf < 0 ? (void*) 0 : (void*) g_out[buf]; }      // buf -1: the caller passes NULL for this output
 static const void* out_src(int ot, int oi) { return oi < 0 ? (const void*) g_out[(-1 - oi) % OUT_BUFS] : obj_of(ot, oi); }
 
 // ---------------------------------------------------------------- scenario model
@@ -179,7 +191,7 @@ struct Param {
     Val v;                 // P_IN
     int mi = 0;            // expected P_OUT_RAW: index into Scenario::mems
     int ot = 0, oi = 0;    // typed output: type index (+ object index on the expected side; -1-b = the object lives in receiving buffer b)
-    int buf = 0;           // actual output: which g_out buffer receives
+    int buf = 0;           // actual output: which g_out buffer receives (-1: a NULL pointer is passed)
     int il = -1;           // actual side: index into Scenario::ils of a support-level operation issued (handle kept) before this chain link
 };
 enum { G_RETVAL, G_HAS, G_TYPED, G_ORDEFAULT };
@@ -253,8 +265,8 @@ static std::string stmt_str(const Scenario& sc, const Stmt& st) {
         for (const Param& p : st.ps) {
             if (p.il >= 0) s += " <handle kept: " + stmt_str(sc, sc.ils[p.il]) + "> ";
             if (p.kind == P_IN) s += ".with(" + p.name + "=" + val_str(sc, p.v) + ")";
-            else if (p.kind == P_OUT_RAW) s += ".out(" + p.name + ",buf" + std::to_string(p.buf) + ")";
-            else s += ".outOfType(" + std::string(OT_NAME[p.ot]) + "," + p.name + ",buf" + std::to_string(p.buf) + ")";
+            else if (p.kind == P_OUT_RAW) s += ".out(" + p.name + "," + (p.buf < 0 ? std::string("NULL") : "buf" + std::to_string(p.buf)) + ")";
+            else s += ".outOfType(" + std::string(OT_NAME[p.ot]) + "," + p.name + "," + (p.buf < 0 ? std::string("NULL") : "buf" + std::to_string(p.buf)) + ")";
         }
         for (const Getter& g : st.getters) { if (g.il >= 0) s += " ; <handle kept: " + stmt_str(sc, sc.ils[g.il]) + ">"; s += " ; " + getter_label(g); if (g.kind == G_ORDEFAULT) s += "(" + val_str(sc, g.def) + ")"; }
         break;
@@ -333,7 +345,7 @@ static std::string fmt_cvalue(const MockValue_c& v) {
     }
 }
 static std::string out_hex(int buf) { return vf::hexbytes(g_out[buf], OUT_SIZE); }
-static void log_outs_of(int i, const Stmt& st) { for (const Param& p : st.ps) if (p.kind != P_IN) logev(i, "out", "buf" + std::to_string(p.buf), out_hex(p.buf)); }
+static void log_outs_of(int i, const Stmt& st) { for (const Param& p : st.ps) if (p.kind != P_IN && p.buf >= 0) logev(i, "out", "buf" + std::to_string(p.buf), out_hex(p.buf)); }
 
 // ---------------------------------------------------------------- execution through the C++ interface
 static MockExpectedCall& cpp_exp_param(MockExpectedCall& e, const Scenario& sc, const Param& p) {
@@ -377,8 +389,8 @@ static MockExpectedCall& cpp_ret(MockExpectedCall& e, const Scenario& sc, const 
 }
 static MockActualCall& cpp_act_param(MockActualCall& a, const Scenario& sc, const Param& p) {
     const char* n = p.name.c_str();
-    if (p.kind == P_OUT_RAW) return a.withOutputParameter(n, g_out[p.buf]);
-    if (p.kind == P_OUT_TYPED) return a.withOutputParameterOfType(OT_NAME[p.ot], n, g_out[p.buf]);
+    if (p.kind == P_OUT_RAW) return a.withOutputParameter(n, out_ptr(p.buf));
+    if (p.kind == P_OUT_TYPED) return a.withOutputParameterOfType(OT_NAME[p.ot], n, out_ptr(p.buf));
     const Val& v = p.v;
     switch (v.t) {
     case V_BOOL: return a.withBoolParameter(n, (int) v.u != 0);
@@ -627,8 +639,9 @@ static MockExpectedCall_c* c_ret(MockExpectedCall_c* E, const Scenario& sc, cons
 }
 static MockActualCall_c* c_act_param(MockActualCall_c* A, const Scenario& sc, const Param& p) {
     const char* n = p.name.c_str();
-    if (p.kind == P_OUT_RAW) return ACT(withOutputParameter)(n, g_out[p.buf]);
-    if (p.kind == P_OUT_TYPED) return ACT(withOutputParameterOfType)(OT_NAME[p.ot], n, g_out[p.buf]);
+    if (p.kind != P_IN && p.buf < 0) g_null_out_tally[p.kind == P_OUT_TYPED]++;
+    if (p.kind == P_OUT_RAW) return ACT(withOutputParameter)(n, out_ptr(p.buf));
+    if (p.kind == P_OUT_TYPED) return ACT(withOutputParameterOfType)(OT_NAME[p.ot], n, out_ptr(p.buf));
     const Val& v = p.v;
     switch (v.t) {
     case V_BOOL: return ACT(withBoolParameters)(n, (int) v.u);
@@ -951,6 +964,11 @@ static void run_scenario(vf::Ctx& c, const Scenario& sc) {
         c.count(std::string("c_copy_fn_call:") + CP_NAME[m] + (same ? ":dst-is-src" : ":dst-differs"), g_cpy_tally[m][same]);
         g_cpy_tally[m][same] = 0;
     }
+    for (int m = 0; m < CP_N; m++) if (g_cpy_null_tally[m]) { c.count(std::string("c_copy_fn_call:") + CP_NAME[m] + ":dst-null", g_cpy_null_tally[m]); g_cpy_null_tally[m] = 0; }
+    // NULL passed as the actual output pointer (C execution), and what became of the scenarios that do so
+    bool nullout = g_null_out_tally[0] || g_null_out_tally[1];
+    for (int ty = 0; ty < 2; ty++) if (g_null_out_tally[ty]) { c.count(ty ? "actual_output_pointer_null:typed" : "actual_output_pointer_null:raw", g_null_out_tally[ty]); g_null_out_tally[ty] = 0; }
+    if (nullout) c.count(diverged ? "null_output_pointer_pairs:diverged" : cpp.failures ? "null_output_pointer_pairs:agree_failing" : "null_output_pointer_pairs:agree_passing");
     // kept handles: support-level operations issued inside an actual-call chain (C execution), and what was read through the handle afterwards
     for (int k = 0; k < S_KINDS; k++) for (int other = 0; other < 2; other++) for (int pos = 0; pos < 2; pos++) if (g_il_tally[k][other][pos]) {
         c.count(std::string("handle_kept_across:") + SK_NAME[k] + (other ? ":other-scope" : ":own-scope") + (pos ? ":before-getter" : ":before-parameter"), g_il_tally[k][other][pos]);
@@ -1243,19 +1261,31 @@ static void gen_random(vf::Rng& r, Scenario& sc, bool thorough, bool focusObjs =
         }
     }
 }
+// Boundary value of the actual output pointer: NULL ("the caller does not want this output"). Applied after the scenario is complete, to
+// output parameters under whose name no expectation of the scenario returns bytes (see the header comment): the candidates are unmodified /
+// zero-size / typed (copier gets the NULL) / undeclared (ignoreOtherParameters, or a failing verdict).
+static bool name_returns_bytes(const Scenario& sc, const std::string& name) {
+    for (const Stmt& st : sc.stmts) if (st.k == S_EXPECT) for (const Param& p : st.ps) if (p.kind == P_OUT_RAW && p.name == name && !sc.mems[p.mi].empty()) return true;
+    return false;
+}
+static void null_output_pass(vf::Rng& r, Scenario& sc) {
+    for (Stmt& st : sc.stmts) if (st.k == S_ACTUAL) for (Param& p : st.ps) if (p.kind != P_IN && !name_returns_bytes(sc, p.name) && r.chance(45)) p.buf = -1;
+}
 static void sec_random(vf::Ctx& c) {
     Scenario sc;
     gen_random(c.rng, sc, c.thorough);
+    null_output_pass(c.rng, sc);
     run_scenario(c, sc);
 }
 static void sec_random_objs(vf::Ctx& c) {
     Scenario sc;
     gen_random(c.rng, sc, c.thorough, true);
+    null_output_pass(c.rng, sc);
     run_scenario(c, sc);
 }
 
 // ---------------------------------------------------------------- enumerated tables (independent of the seed)
-static std::vector<Scenario> T_FORWARD, T_DATA, T_IGNORED, T_ADAPT, T_KEPT;
+static std::vector<Scenario> T_FORWARD, T_DATA, T_IGNORED, T_ADAPT, T_KEPT, T_NULLOUT;
 
 static Val mkint(int t, uint64_t u) { Val v; v.t = t; v.u = u; return v; }
 static Param in_param(const char* name, const Val& v) { Param p; p.kind = P_IN; p.name = name; p.v = v; return p; }
@@ -1541,6 +1571,54 @@ static void build_kept_table() {
     }
 }
 
+// NULL as the actual output pointer: what the expectation declares under that name (unmodified / returning 0 bytes from a real source / typed
+// returning a pool object / typed returning the object in a receiving buffer / nothing, with ignoreOtherParameters / nothing at all) x copier
+// installed x how the actual call passes the NULL (raw / typed of the expected type / typed of another type) x an input parameter before / after it
+// x scope x candidates (one expectation / a rival expectation of the same function WITHOUT that output and with another return value, declared
+// first or second / expectNCalls(2) and two calls / two outputs of one call, one NULL and one real). Every call reads its return value, then
+// expectedCallsLeft. Own key family null-output-pointer:*.
+static void build_nullout_table() {
+    for (int ek = 0; ek < 6; ek++) for (int inst = 0; inst < 2; inst++) for (int ak = 0; ak < 3; ak++) for (int pos = 0; pos < 3; pos++) for (int scope = 0; scope < 2; scope++) for (int cand = 0; cand < 5; cand++) {
+        if (inst && ek != 2 && ek != 3) continue;                            // the copier only matters for typed expectations
+        Scenario sc; sc.key_override = "null-output-pointer:";
+        if (inst) add_installs(sc, 0, false, true, CM_STRUCT, (ak + pos) & 1 ? CP_XOR : CP_MEMCPY);
+        Param eo; eo.name = "o";
+        switch (ek) {
+        case 0: eo.kind = P_OUT_UNMODIFIED; break;
+        case 1: eo.kind = P_OUT_RAW; eo.mi = add_mem(sc, ""); break;
+        case 2: eo.kind = P_OUT_TYPED; eo.ot = OT_A; eo.oi = 2; break;
+        case 3: eo.kind = P_OUT_TYPED; eo.ot = OT_A; eo.oi = -2; break;       // the object to return lives in receiving buffer 1
+        default: break;
+        }
+        Param in = in_param("a", mkint(V_INT, 3));
+        auto declare = [&](Stmt& e, bool withOut) {
+            if (pos == 1) e.ps.push_back(in);
+            if (withOut && ek < 4) e.ps.push_back(eo);
+            if (pos == 2) e.ps.push_back(in);
+            if (withOut && ek == 4) e.ignoreOtherParams = true;
+        };
+        Stmt e = t_expect(scope, "f", cand == 3 ? 2 : -1); e.entry = scope == 0 ? (ek + cand) & 1 : 0; declare(e, true); e.hasRet = true; e.ret = mkint(V_INT, 5);
+        if (cand == 4) { Param e2 = eo; e2.name = "p"; e2.kind = P_OUT_RAW; e2.mi = add_mem(sc, "\x01\x02\x03"); e.ps.push_back(e2); }
+        Stmt rival = t_expect(scope, "f"); rival.entry = e.entry; declare(rival, false); rival.hasRet = true; rival.ret = mkint(V_INT, 6);
+        if (cand == 1) sc.stmts.push_back(rival);
+        sc.stmts.push_back(e);
+        if (cand == 2) sc.stmts.push_back(rival);
+        for (int call = 0; call < (cand == 3 ? 2 : 1); call++) {
+            Stmt a = t_actual(scope, "f"); a.entry = e.entry;
+            Param q; q.name = "o"; q.buf = -1; q.kind = ak == 0 ? P_OUT_RAW : P_OUT_TYPED; q.ot = ak == 2 ? OT_B : OT_A;
+            if (pos == 1) a.ps.push_back(in);
+            a.ps.push_back(q);
+            if (cand == 4) { Param q2; q2.name = "p"; q2.kind = P_OUT_RAW; q2.buf = 2; a.ps.push_back(q2); }
+            if (pos == 2) a.ps.push_back(in);
+            a.getters.push_back(t_getter(call & 1, G_TYPED, V_INT));
+            sc.stmts.push_back(a);
+            Stmt l = mk(S_LEFT, scope); l.entry = e.entry; sc.stmts.push_back(l);
+        }
+        T_NULLOUT.push_back(sc);
+    }
+}
+
+static void sec_nullout(vf::Ctx& c) { run_scenario(c, T_NULLOUT[c.idx]); }
 static void sec_kept(vf::Ctx& c) { run_scenario(c, T_KEPT[c.idx]); }
 static void sec_adapt(vf::Ctx& c) { run_scenario(c, T_ADAPT[c.idx]); }
 static void sec_forward(vf::Ctx& c) { run_scenario(c, T_FORWARD[c.idx]); }
@@ -1552,13 +1630,14 @@ int main(int argc, char** argv) {
     for (int i = 0; i < 2; i++) for (int m = 0; m < CM_N; m++) { g_cmp[i][m].eq = EQ[i][m]; g_cmp[i][m].str = STR[i]; }
     for (int m = 0; m < CP_N; m++) g_cpy[m].cp = CPY[m];
     for (int i = 0; i < 4; i++) g_ptrpool[i] = i;
-    build_forward_table(); build_data_table(); build_ignored_table(); build_adaptor_table(); build_kept_table();
+    build_forward_table(); build_data_table(); build_ignored_table(); build_adaptor_table(); build_kept_table(); build_nullout_table();
     std::vector<vf::Section> S = {
         { "forwarder_table", T_FORWARD.size(), T_FORWARD.size(), sec_forward, true },
         { "data_store_table", T_DATA.size(), T_DATA.size(), sec_data, true },
         { "support_getters_after_ignored_call", T_IGNORED.size(), T_IGNORED.size(), sec_ignored, true },
         { "custom_type_adaptor_table", T_ADAPT.size(), T_ADAPT.size(), sec_adapt, true },
         { "kept_handle_table", T_KEPT.size(), T_KEPT.size(), sec_kept, true },
+        { "null_output_pointer_table", T_NULLOUT.size(), T_NULLOUT.size(), sec_nullout, true },
         { "random_scenarios", 30000, 600000, sec_random, false },
         { "random_custom_type_scenarios", 6000, 100000, sec_random_objs, false },
     };
